@@ -17,6 +17,7 @@ RULE = ('the C01 byte space without redundant prefixes (opcode cells x 256 ModRM
         '(as(objdump(b)) == b): b must be among asm_att(AT&T rendering). Clause 2 on compiler-emittable instructions (no relative branch, no absolute numeric memory '
         'operand): GNU as must accept each rendering in the matching mode and objdump must read the result like b. A case = (bytes, rendering kind); non-trivial = the '
         'rendering exists and was submitted to the parser / to GNU as.')
+RULE += ' Round 10: one instruction in four is printed a second time in the opposite order of syntaxes; each rendering must read as the first time.'
 ASSUMPTIONS = ['GNU as 2.40 defines what is valid assembler input in each syntax mode; meaning-free encoding differences are normalised as in C01',
                'the Intel half of clause 1 is C03\'s backward direction and is not repeated here']
 
@@ -52,6 +53,19 @@ def analyse(sh, items):
                 texts[kind] = d.__str__(asm_format=fmt) if fmt else str(d)
             except Exception:
                 sh.counters['render_raises(C10):' + kind] += 1
+        # the renderings of one object do not depend on which syntax was printed first: one instruction in four is printed again,
+        # in the opposite order, and must read the same
+        if (bb[0] + len(bb) + bb[-1]) % 4 == 0:
+            sh.counters['rendered_twice'] += 1
+            for kind, fmt in (('att-objdump', 'att_syntax objdump'), ('att', 'att_syntax binutils'), ('intel', None)):
+                try:
+                    t2 = d.__str__(asm_format=fmt) if fmt else str(d)
+                except Exception as e_:
+                    t2 = 'raises %s' % type(e_).__name__
+                if kind in texts and t2 != texts[kind]:
+                    sh.case((bb, 'rendered-twice'), True, cls=None)
+                    sh.violation('%s/second-rendering-differs' % kind, 'bytes %s: first printed as %r; after the other syntaxes were printed the same object prints %r' % (bb.hex(), texts[kind], t2), {'bytes': bb.hex()})
+                    break
         sel.append((bb, cls, d.m.name, rt, texts))
     if not sel:
         return
